@@ -27,7 +27,7 @@ func DriverInit() {
 }
 
 // ToolWatchdog bounds one in-process run of the command (typical runs take 1-10 ms).
-var ToolWatchdog = 120 * time.Second
+var ToolWatchdog = 60 * time.Second
 
 // HangHook is called when a run exceeds ToolWatchdog (the worker installs one that exits the process).
 var HangHook func()
